@@ -298,6 +298,9 @@ myth_tls_key_allocator_dealloc(myth_tls_key_allocator_t * s, int key) {
     return (myth_tls_destructor_fun_t)-1;
   }
   myth_tls_destructor_fun_t f = ke->destructor;
+  /* a deleted key has no destructor any more: threads that still
+     hold a value under it must not have it destructed at exit */
+  ke->destructor = 0;
   /* push the cell to the free list */
   ke->next = s->free;
   s->free = ke;
